@@ -21,7 +21,7 @@ RULE = ("one evaluation = one seeded history: (bytes) <= 60 seek/tell/read/lengt
         "simulated range server and read through RTDC_HTTP with small chunk/cache knobs, compared with RTDC_HDF5 on the same "
         "bytes. non-trivial = >=1 read and >=1 comparison; distinct = distinct event-log digests")
 STATE_MEASURE = "distinct (pos mod c, n relative to c, crosses end?, cache occupancy, evicted chunk re-requested?, retried?) tuples"
-PROBES = ["read_ends_on_chunk_boundary", "read_spans_3_chunks", "read_reaches_end", "read_crosses_end", "read_all",
+PROBES = ["operation_failed_on_error_reply", "read_ends_on_chunk_boundary", "read_spans_3_chunks", "read_reaches_end", "read_crosses_end", "read_all",
           "evicted_chunk_rerequested", "retry_took_2plus_attempts", "outage_longer_than_budget", "keep_chunks_1",
           "server_strict", "server_s3like", "dataset_level", "s3file", "seek_end", "empty_resource",
           "reopened_with_other_chunk_size", "resource_replaced_then_reopened", "server_without_etag",
@@ -110,6 +110,13 @@ class ByteWorld:
         self.outage_used = False
 
     def gen_op(self, r):
+        op = self.gen_op0(r)
+        if self.t["klass"] == "bytes" and op["k"] in ("read", "length", "etag", "seek") and r.random() < 0.07:
+            # the server answers one request of this operation with a 503 error page (once)
+            op["err503"] = r.choice([0, 0, 0, 1, 2])
+        return op
+
+    def gen_op0(self, r):
         L, c = self.L, self.c
         if self.t["klass"] == "bytes" and r.random() < self.t["knobs"].get("reopen_rate", 0.0):
             # a second file object on the same URL (other chunk grid / capacity), optionally after the resource was replaced
@@ -196,9 +203,38 @@ class ByteWorld:
             self.seen_chunks, self.evicted = set(), set()
             ctx.log("c", f"reopen chunk {self.c} keep {self.keep} replaced {bool(op.get('replace'))}")
             return
+        n503 = getattr(net, "n_error_replies", 0)
+        net.error_reply_at = op.get("err503") if self.t["klass"] == "bytes" else None
+
+        class _Tolerant:
+            """an operation during which the server sent an error page may fail (with any exception); it must not succeed wrongly"""
+            def __init__(s_, inner):
+                s_.inner, s_.exc = inner, None
+
+            def __enter__(s_):
+                s_.inner.__enter__()
+                return s_
+
+            def __exit__(s_, et, ev, tb):
+                hit = getattr(net, "n_error_replies", 0) > n503
+                net.error_reply_at = None
+                if et is not None and issubclass(et, Exception) and hit:
+                    s_.exc = ev
+                    ctx.probe("operation_failed_on_error_reply")
+                    ctx.log("c", f"{k} failed on a 503 reply", et.__name__)
+                    try:
+                        f.seek(self.pos)
+                    except Exception:
+                        pass
+                    return True
+                r_ = s_.inner.__exit__(et, ev, tb)
+                s_.exc = s_.inner.exc
+                return r_
         if k == "seek":
-            with ctx.sut("C19.seek"):
+            with _Tolerant(ctx.sut("C19.seek")) as s_:
                 f.seek(op["off"], op["whence"])
+            if s_.exc is not None:
+                return
             if op["whence"] == 0:
                 self.pos = op["off"]
             elif op["whence"] == 1:
@@ -218,13 +254,15 @@ class ByteWorld:
             return
         if k == "length":
             ctx.checked()
-            with ctx.sut("C19.length"):
+            with _Tolerant(ctx.sut("C19.length")) as s_:
                 got = f.length
+            if s_.exc is not None:
+                return
             if got != L:
                 ctx.violation("C19.length", f"length = {got}, expected {L}")
             return
         if k == "etag":
-            with ctx.sut("C19.etag"):
+            with _Tolerant(ctx.sut("C19.etag")):
                 f.etag
             return
         # read
@@ -240,7 +278,7 @@ class ByteWorld:
         faults_before, reqs_before = net.n_faults, net.n_requests
         import requests
         allow = (requests.exceptions.ReadTimeout,) if long_outage else None
-        with ctx.sut("C19.read", allow=allow, sig={"crosses_end": bool(n >= 0 and pos + n > L), "neg": n < 0}) as s:
+        with _Tolerant(ctx.sut("C19.read", allow=allow, sig={"crosses_end": bool(n >= 0 and pos + n > L), "neg": n < 0})) as s:
             got = f.read(n)
         net.outage = None
         ctx.state_ops += 1
